@@ -357,10 +357,20 @@ class Session(BaseSession):
             control = self.connection.control
             if control:
                 kind = KillKind[q.expression.text("kind").upper() or "CONNECTION"]
-                this = q.expression.this.name
+                arg = q.expression.this
+                this = arg.name
 
                 try:
-                    connection_id = int(this)
+                    # The value MySQL gives the literal: 0x10 and b'11' are numbers in
+                    # base 16 and 2, and only ASCII digits make a decimal number
+                    if isinstance(arg, exp.HexString):
+                        connection_id = int(this, 16)
+                    elif isinstance(arg, exp.BitString):
+                        connection_id = int(this, 2)
+                    elif this.isascii() and this.isdigit():
+                        connection_id = int(this)
+                    else:
+                        raise ValueError(this)
                 except ValueError as e:
                     raise MysqlError(
                         f"Invalid KILL connection ID: {this}",
